@@ -62,6 +62,19 @@ def check_brackets(step):
         elif kind == "post_attach":
             if here[n][0] != arg or occurrences(here, n) != [arg] or here[arg][1][-1] != n:
                 raise Violation("in-hook-state", "_post_attach(%s, %s) does not see the node as last child of the new parent: %s; %s" % (n, arg, here, ctx))
+        elif kind == "pre_detach_children":
+            if here[n][1] != arg:
+                raise Violation("in-hook-state", "_pre_detach_children(%s, %s) is not given the current children %s; %s" % (n, arg, here[n][1], ctx))
+        elif kind == "post_detach_children":
+            # a post hook observes the tree after its step: all former children have left
+            if here[n][1] or any(isinstance(c, int) and here[c][0] == n for c in arg):
+                raise Violation("in-hook-state", "_post_detach_children(%s, %s) runs while the node still has children %s; %s" % (n, arg, here[n][1], ctx))
+        elif kind == "pre_attach_children":
+            if here[n][1]:
+                raise Violation("in-hook-state", "_pre_attach_children(%s, %s) runs while the node still has children %s; %s" % (n, arg, here[n][1], ctx))
+        elif kind == "post_attach_children":
+            if here[n][1] != arg:
+                raise Violation("in-hook-state", "_post_attach_children(%s, %s) sees children %s; %s" % (n, arg, here[n][1], ctx))
         # layer 2: what may change until the next hook / the end of the call
         if kind == "pre_detach" and not fired:
             follows = log[i + 1] if i + 1 < len(log) else None
@@ -95,7 +108,54 @@ def partial_parent_state(pre, op, k):
     return attach_of(state, n, p)
 
 
+def check_blind(case, acc):
+    """Fault-free history executed WITHOUT any read between the calls (reads can re-create lazily built internal
+    state and so mask a protocol slip); only the hook logs are collected, the forest is inspected at the very end."""
+    n = case["n"]
+    rec = mut.Recorder()
+    mut.CURRENT[0] = rec
+    universe = [mut.CLASSES[c][0](i) for i, c in enumerate(mut.class_list(case["cls"], n))]
+    for node in universe:
+        rec.labels.add(node)
+    rec.universe = universe
+    state = mut.all_roots(n)
+    family = mut.family_of(case["cls"])
+    checked = 0
+    for item in case["steps"]:
+        op = item["op"]
+        verdict, new = mut.spec(state, op, family)
+        rec.begin_call(None)
+        exc = mut.execute(universe, op)
+        log = rec.log
+        rec.begin_call(None)
+        ctx = "%s on model state %s (history executed without intermediate reads: %s)" % (op, state, [s["op"] for s in case["steps"]])
+        if verdict == "ok":
+            if exc is not None:
+                raise Violation("blind-outcome", "%s raised %s: %s" % (ctx, type(exc).__name__, exc))
+            expected = mut.spec_log(state, op)
+            if log != expected:
+                raise Violation("hook-log", "%s: hooks %s, protocol prescribes %s" % (ctx, log, expected))
+            state = new
+            checked += 1
+        else:
+            if exc is None or type(exc).__name__ != new:
+                raise Violation("blind-outcome", "%s must raise %s, got %s" % (ctx, new, type(exc).__name__ if exc else "no exception"))
+            if op[0] == "children" and new == "LoopError":
+                break  # a refused children list may strand stolen children (KF-C03-3): the model state is unknown from here
+            if log:
+                raise Violation("hook-on-refusal", "%s was refused but hooks ran: %s" % (ctx, log))
+    else:
+        final = mut.snapshot(universe, rec.labels)
+        if final != state:
+            raise Violation("blind-final-state", "history %s ends in %s, closed-form model %s" % ([s["op"] for s in case["steps"]], final, state))
+    acc.nontrivial(checked >= 2)
+    acc.tag("blind_histories")
+    acc.tag("blind_steps_log_compared", checked)
+
+
 def check_case(case, acc):
+    if case.get("kind") == "blind":
+        return check_blind(case, acc)
     family = mut.family_of(case["cls"])
     stats = {"nontrivial": 0, "success": 0, "aborted_parent": 0, "failed_children": 0, "posthook": 0}
 
@@ -157,6 +217,14 @@ def plan(tier, seed):
     examples = 80 if tier == "quick" else 500
     for i in range(nshards):
         tasks.append({"engine": "hyp", "examples": examples, "seed": seed * 1000 + i})
+    # blind histories: every sequence of 2 (quick) / 3 (thorough: N = 2 only for length 3) calls from the all-roots forest, no reads in between
+    for spec in ("HNM", "HLM", "HNode"):
+        for n, length in ([(2, 3), (3, 2)] if tier == "quick" else [(2, 4), (3, 3)]):
+            shards = nshards if (n, length) != (2, 3) else 4
+            for i in range(shards):
+                tasks.append({"engine": "blind-enum", "spec": spec, "n": n, "length": length, "index": i, "count": shards})
+    for i in range(nshards):
+        tasks.append({"engine": "blind-hyp", "examples": examples, "seed": seed * 1000 + 500 + i})
     return tasks
 
 
@@ -167,7 +235,30 @@ def _no_bad_for_lm(cases, family):
         yield case
 
 
+def _blind_cases(spec, n, length, index, count):
+    import itertools
+
+    ops = [op for op in mut.calls_for(n, "NM", invalid=False)]
+    k = 0
+    for seq in itertools.product(ops, repeat=length):
+        k += 1
+        if k % count == index:
+            yield {"kind": "blind", "cls": spec, "n": n, "steps": [{"op": op} for op in seq]}
+
+
 def run_task(task, acc):
+    if task["engine"] == "blind-enum":
+        return acc.run_enum(check_case, _blind_cases(task["spec"], task["n"], task["length"], task["index"], task["count"]))
+    if task["engine"] == "blind-hyp":
+        from hypothesis import strategies as st
+
+        @st.composite
+        def blind(draw):
+            spec = draw(st.sampled_from(["HNM", "HLM", "HNode", "HAnyNode", "HDictLM", ["HNode", "HAnyNode", "HSymlink", "HNM"]]))
+            hist = draw(mut.history_strategy(max_nodes=6, max_steps=20, faults="none", invalid=False, class_specs=[spec]))
+            return {"kind": "blind", "cls": spec, "n": hist["n"], "steps": [{"op": s["op"]} for s in hist["steps"]]}
+
+        return acc.run_hypothesis(check_case, blind(), task["examples"], task["seed"])
     if task["engine"] == "enum":
         cases = mut.enum_fault_cases(task["spec"], task["n"], task["index"], task["count"], fault_hooks=mut.HOOKS, pairs=task["pairs"], invalid=True, maxlen=task["maxlen"], routes=task["routes"])
         acc.run_enum(check_case, _no_bad_for_lm(cases, mut.family_of(task["spec"])))
